@@ -569,6 +569,12 @@ func (rl *Shell) shellTransposeWords() {
 		return
 	}
 
+	// Or no word could be selected at all (empty line).
+	if wbpos < 0 || tbpos < 0 || tepos > rl.line.Len() {
+		rl.cursor.Set(startPos)
+		return
+	}
+
 	// Assemble the newline
 	begin := string((*rl.line)[:wbpos])
 	newLine := append([]rune(begin), []rune(toTranspose)...)
